@@ -298,3 +298,59 @@ def run(ctx):
     for o in ctx.obligations:
         ctx.samples.append(o.as_dict())
     return ctx.finish()
+
+
+MUTANTS = [
+    {'name': 'insert: no poison on write_raw error',
+     'edits': [('src/keyspace/mod.rs', """            .write_raw(self.id, &key, &value, lsm_tree::ValueType::Value, seqno)
+            .inspect_err(|_| {
+                self.is_poisoned.poison();
+            })?;""", """            .write_raw(self.id, &key, &value, lsm_tree::ValueType::Value, seqno)?;""")]},
+    {'name': 'remove: poison flag read before taking the lock',
+     'edits': [('src/keyspace/mod.rs', """        let key = key.into();
+
+        let mut journal_writer = self.supervisor.journal.get_writer()?;
+
+        // IMPORTANT: Check the poisoned flag after getting journal mutex, otherwise TOCTOU
+        if self.is_poisoned.is_poisoned() {
+            return Err(crate::Error::Poisoned);
+        }
+
+        let seqno = self.supervisor.seqno.next();
+
+        journal_writer
+            .write_raw(self.id, &key, &[], lsm_tree::ValueType::Tombstone, seqno)""", """        let key = key.into();
+
+        if self.is_poisoned.is_poisoned() {
+            return Err(crate::Error::Poisoned);
+        }
+
+        let mut journal_writer = self.supervisor.journal.get_writer()?;
+
+        let seqno = self.supervisor.seqno.next();
+
+        journal_writer
+            .write_raw(self.id, &key, &[], lsm_tree::ValueType::Tombstone, seqno)""")]},
+    {'name': 'worker swallows the tick error without poisoning',
+     'edits': [('src/worker_pool.rs', """                                    poison_dart.poison();
+                                    return Err(e);""", """                                    return Err(e);""")]},
+    {'name': 'batch: persist failure returns Err without poisoning',
+     'edits': [('src/batch/mod.rs', """            if let Err(e) = journal_writer.persist(mode) {
+                self.db.is_poisoned.poison();
+""", """            if let Err(e) = journal_writer.persist(mode) {
+""")]},
+    {'name': 'clear: persist error swallowed (call acknowledged)',
+     'edits': [('src/keyspace/mod.rs', """                    self.is_poisoned.poison();
+                    e
+                })?;
+        }
+
+        self.tree.clear()""", """                    self.is_poisoned.poison();
+                    e
+                }).ok();
+        }
+
+        self.tree.clear()""")]},
+    {'name': 'PoisonSignal::poison stores false',
+     'edits': [('src/poison.rs', "self.0.store(true, std::sync::atomic::Ordering::Release);", "self.0.store(false, std::sync::atomic::Ordering::Release);")]},
+]
